@@ -10,6 +10,7 @@ import (
 	"fmt"
 	"net"
 	"os"
+	"runtime"
 	"sort"
 	"strings"
 	"sync"
@@ -54,6 +55,9 @@ type opT struct {
 type scriptT struct {
 	ID  int   `json:"id"`
 	Ops []opT `json:"ops"`
+	// Burst: the resolver events come back to back (no pause for a report goroutine to arrive) and the process runs on one
+	// processor, where the Go scheduler runs the goroutine spawned LAST first: later snapshots get their turn before earlier ones
+	Burst bool `json:"burst,omitempty"`
 }
 
 type table map[string][]string
@@ -213,7 +217,7 @@ func runScript(s *scriptT, seed int) obsT {
 		}
 		now := m.VerifEntries()
 		o.Events = append(o.Events, evObs{E: e, Table: toTable(now), Dup: hasDup(now)})
-		if op.Report {
+		if op.Report && !(s.Burst && i > 0) {
 			// let the report goroutine arrive (it may be held back by the library if reports are serialised)
 			for t := 0; t < 20 && hubS.arrivalsNow() == before; t++ {
 				time.Sleep(time.Millisecond)
@@ -408,6 +412,12 @@ func main() {
 		os.Exit(2)
 	}
 	t0 := time.Now()
+	if scripts[0].Burst {
+		runtime.GOMAXPROCS(1)
+		if *par > 8 {
+			*par = 8
+		}
+	}
 	vh.Pool(len(scripts), *par, func(i int) { out.Write(runScript(scripts[i], seed)) })
 	out.Close()
 	b, _ := json.MarshalIndent(map[string]interface{}{"scripts": len(scripts), "wall_s": time.Since(t0).Seconds()}, "", " ")
